@@ -261,3 +261,52 @@ def gen_c09(tier, rng):
         i = "".join(rng.choice(alpha[10:]) for _ in range(rng.randint(0, 10)))
         cases.append("parse %s %s %s" % (rng.choice(ids), hx(f), hx(i)))
     return cases, zones
+
+
+# ---- C18 ----
+TYPES = {"ns64": (1, 10**9, 64), "us64": (1, 10**6, 64), "ms64": (1, 1000, 64), "s64": (1, 1, 64), "min32": (60, 1, 32),
+         "h32": (3600, 1, 32), "s8": (1, 1, 8), "s16": (1, 1, 16), "min8": (60, 1, 8), "min16": (60, 1, 16),
+         "third64": (1, 3, 64), "fs64": (1, 10**15, 64)}
+
+
+def gen_c18(tier, rng):
+    cases = []
+    n = 60 if tier == "quick" else 4000
+    for T, (num, den, bits) in TYPES.items():
+        lo, hi = -(1 << (bits - 1)), (1 << (bits - 1)) - 1
+        # keep c*num inside int64 (the property's range)
+        lim = ((1 << 63) - 1) // num
+        lo2, hi2 = max(lo, -lim), min(hi, lim)
+        vals = {0, 1, -1, 2, -2, lo2, lo2 + 1, hi2, hi2 - 1}
+        for k in range(-3 * den, 3 * den + 1, max(1, den // 7) if den > 20 else 1):
+            vals.add(k)
+        for r in (1, den - 1, den, den + 1, den // 2, den // 3):
+            for sgn in (1, -1):
+                vals.add(sgn * r)
+                vals.add(sgn * (5 * den + r))
+        for _ in range(n):
+            vals.add(rng.randint(lo2, hi2))
+            vals.add(rng.randint(max(lo2, -10**6 * den), min(hi2, 10**6 * den)))
+        for c in sorted(v for v in vals if lo2 <= v <= hi2):
+            cases.append("split %s %d" % (T, c))
+            cases.append("tconv %s %d" % (T, c))
+            f = rng.choice(["%Y-%m-%dT%H:%M:%E*S", "%E0S|%E1S|%E3S|%E6S|%E9S|%E12S|%E15S|%E18S", "%E*f|%E3f|%E15f", "%H:%M:%S %s", "%E*S"])
+            cases.append("tfmt %s %d %s" % (T, c, hx(f)))
+        # join / parse at and beyond the representation's limits
+        secs = {0, 1, -1, 59, 60, 61, -59, -60, -61, 3599, 3600, 3601, -3599, -3600, -3601, I64_MAX, I64_MIN, I64_MAX - 59, I64_MIN + 59}
+        for b in (lo, hi):
+            for d in (-2, -1, 0, 1, 2):
+                secs.add(b * num + d)
+                secs.add((b + 1) * num + d)
+        for s in sorted(v for v in secs if I64_MIN <= v <= I64_MAX):
+            if den == 1 or abs(s) < (1 << 62) // den:
+                cases.append("join %s %d %d" % (T, s, rng.choice([0, 10**15 - 1, 5 * 10**14])))
+            if den == 1:
+                fl = s // num
+                exp = "EXP %d" % fl if lo <= fl <= hi else "REJ"
+                cases.append("tparse %s %s %s %s" % (T, hx("%s"), hx(str(s)), exp))
+        for txt, fm in (("1969-12-31T23:59:59.9", "%Y-%m-%dT%H:%M:%E*S"), ("1970-01-01T00:00:00.000000001", "%Y-%m-%dT%H:%M:%E*S"),
+                        ("1970-01-01T00:02:07", "%Y-%m-%dT%H:%M:%S"), ("1970-01-01T00:02:08", "%Y-%m-%dT%H:%M:%S"), ("1969-12-31T23:57:52", "%Y-%m-%dT%H:%M:%S"),
+                        ("1969-12-31T23:57:51", "%Y-%m-%dT%H:%M:%S"), ("1970-01-01T09:06:07", "%Y-%m-%dT%H:%M:%S"), ("1970-01-01T09:06:08", "%Y-%m-%dT%H:%M:%S")):
+            cases.append("tparse %s %s %s" % (T, hx(fm), hx(txt)))
+    return cases
